@@ -195,7 +195,7 @@ pub fn def() -> PropDef {
         title: "Unchecked fast paths never touch memory outside their buffers",
         rule: "random sequences of 1-8 calls (DamerauLevenshtein::distance, Jaccard::similarity, word_match on long-lived instances; Store::search on stores of 1-700 records, which exercises the thread-local production instances) with word lengths 0-8, 17-24, 28-40, 45-60, 80-130 in random order. Oracle = monitors: guarded assertions row < size && col < size in every matrix access, index < len before every other unchecked access, std's get_unchecked precondition checks. Non-trivial = a call that grew a buffer (longer than anything before and > 20) or a shorter input after a longer one; distinct = distinct call sequence",
         assumptions: &["monitors observe executed accesses only", "panics that are not memory monitors are ignored here (C01 decides them)"],
-        spaces: vec![Space { name: "calls", decode, plan: |t| Plan::Random(t.n(40_000, 1_500_000)) }],
+        spaces: vec![Space { name: "calls", decode, plan: |t| Plan::Random(t.n(80_000, 2_000_000)) }],
         differential: false,
     }
 }
